@@ -203,6 +203,7 @@ fn main() {
         "worker" => worker(),
         "gen" => gen(&args),
         "one" => one(&args),
+        "reduce" => reduce(&args),
         _ => {
             eprintln!("usage: genner gen --plan P --seed S --count N --out DIR [--crates K] [--tier quick|thorough] | genner one --spec file --out DIR");
             std::process::exit(2);
@@ -371,3 +372,24 @@ fn one(args: &[String]) {
 
 #[allow(dead_code)]
 fn unused(_: &Grammar) {}
+
+/// one-step reductions of a failing grammar (written as specs; compiled by `genner one`)
+fn reduce(args: &[String]) {
+    let specf = arg(args, "--spec").expect("--spec");
+    let rule = arg(args, "--rule").expect("--rule");
+    let out = arg(args, "--out").expect("--out");
+    let limit: usize = arg(args, "--limit").map(|s| s.parse().unwrap()).unwrap_or(120);
+    let spec: GrammarSpec = serde_json::from_str(&std::fs::read_to_string(specf).unwrap()).unwrap();
+    let mut outv = vec![];
+    for (i, g) in verif_core::reduce::candidates(&spec.model, &rule, limit).into_iter().enumerate() {
+        let mut s = spec.clone();
+        s.id = format!("c{:04}", i);
+        s.group = None;
+        s.model = g;
+        s.flags.no_wrappers = true;
+        s.flags.constructive = None;
+        outv.push(s);
+    }
+    std::fs::write(out, serde_json::to_string(&outv).unwrap()).unwrap();
+    println!("{} candidates", outv.len());
+}
